@@ -99,7 +99,19 @@ def do_render(env: Env, o, op):
         return [sql, RawParams(p.values)]
     if mode == "par_own":
         # caller-owned parameterizer that already holds k values: the render may only append
-        p = L.terms.Parameterizer()
+        fail_at = op.get("fail_at")
+        if fail_at:
+            # the caller's own placeholder factory raises on its k-th call (a fault the CALLER injects into a render)
+            seen = [0]
+
+            def factory(i):
+                seen[0] += 1
+                if seen[0] >= fail_at:
+                    raise InjectedError("placeholder factory failed at value %d" % i)
+                return ":v%d" % i
+            p = L.terms.Parameterizer(placeholder_factory=factory)
+        else:
+            p = L.terms.Parameterizer()
         pre = op.get("pre", 0)
         for j in range(pre):
             p.values.append("pre%d" % j)
